@@ -123,39 +123,33 @@ type C03Case struct {
 }
 
 type c03Prog struct {
-	src  string
-	sels []string
+	src   string
+	sels  []string
+	begin string // what the program prints before any input (BEGIN rules)
+	end   string // what it prints after all input (END rules)
 }
 
 var c03Programs = []c03Prog{
-	{`BEGINFILE { print "bf", $file } { print "v", $ } ENDFILE { print "ef" }`, nil},
-	{`{ print }`, nil},
-	{`BEGIN { print "begin" } BEGINFILE { print "bf", $ } $ is number { print "num", $ } $ is string { print "str", $ } END { print "end" }`, nil},
-	{`{ print "v", $ } ENDFILE { print "ef", $file }`, []string{"$"}},
-	{`{ print "v", $ }`, []string{"$.a", "$"}},
+	{`BEGINFILE { print "bf", $file } { print "v", $ } ENDFILE { print "ef" }`, nil, "", ""},
+	{`{ print }`, nil, "", ""},
+	{`BEGIN { print "begin" } BEGINFILE { print "bf", $ } $ is number { print "num", $ } $ is string { print "str", $ } END { print "end" }`, nil, "begin\n", "end\n"},
+	{`{ print "v", $ } ENDFILE { print "ef", $file }`, []string{"$"}, "", ""},
+	{`{ print "v", $ }`, []string{"$.a", "$"}, "", ""},
 	// programs that never look at the input still read it: a faulty stream is an error for them too
-	{`BEGIN { print "only begin" }`, nil},
-	{``, nil},
-	{`END { print "only end" }`, nil},
-	{`function unused() { return 1 } BEGIN { x = 1 }`, []string{"$"}},
+	{`BEGIN { print "only begin" }`, nil, "only begin\n", ""},
+	{``, nil, "", ""},
+	{`END { print "only end" }`, nil, "", "only end\n"},
+	{`function unused() { return 1 } BEGIN { x = 1 }`, []string{"$"}, "", ""},
 }
 
-// c03Out runs the program on a single value and returns its output (the unit of
-// the composition law); BEGIN / END output is separated by running on no input.
+// c03Unit runs the program on a single value and returns its output (the unit of
+// the composition law).
 func c03Unit(p c03Prog, value string) (string, bool) {
 	o := run.InProc(p.src, []run.InFile{{Name: "f", Data: []byte(value)}}, p.sels, run.Opts{Budget: implBudget})
 	return string(o.Stdout), o.Class == "ok"
 }
 
-func c03BeginEnd(p c03Prog) (begin, end string) {
-	o := run.InProc(p.src, []run.InFile{{Name: "f", Data: nil}}, p.sels, run.Opts{Budget: implBudget})
-	out := string(o.Stdout)
-	// BEGIN output comes first, END output last; with no input that is all there is
-	if i := strings.Index(out, "end\n"); i >= 0 && strings.HasPrefix(out, "begin\n") {
-		return "begin\n", "end\n"
-	}
-	return out, ""
-}
+func c03BeginEnd(p c03Prog) (begin, end string) { return p.begin, p.end }
 
 func c03Check(c *C03Case) string {
 	p := c03Programs[c.Prog]
